@@ -183,6 +183,92 @@ func fieldOfParam(v ssa.Value) (*ssa.Parameter, int) {
 	return nil, 0
 }
 
+// tableSideConditions: table key -> check, on the current source, of the fact the reviewed reason relies on.
+var tableSideConditions = map[string]func(p *load.Prog) (bool, string){
+	"P1 panic in gedcom.needsFamily": func(p *load.Prog) (bool, string) {
+		// (1) the family-role constructors are only called behind needsFamily or with the receiver's family
+		// (2) DeepCopy's callback takes the family of a family-role node from the node itself when no FAM node is above it
+		dc := p.Func(load.PkgRoot, "DeepCopy")
+		sc := p.Func(load.PkgRoot, "shallowCopyNode")
+		if dc == nil || sc == nil {
+			return false, "DeepCopy / shallowCopyNode not found"
+		}
+		found := false
+		for _, an := range dc.AnonFuncs {
+			if len(su.CallsTo(an, sc)) == 0 {
+				continue
+			}
+			// an invoke of FamilyNoder.Family() on the callback's node whose result is stored into the captured family variable
+			for _, c := range su.Calls(an) {
+				cc := c.Common()
+				if !cc.IsInvoke() || cc.Method.Name() != "Family" {
+					continue
+				}
+				val, ok := c.(ssa.Value)
+				if !ok {
+					continue
+				}
+				for _, ref := range *val.Referrers() {
+					if st, ok := ref.(*ssa.Store); ok && st.Val == val {
+						if _, isFV := st.Addr.(*ssa.FreeVar); isFV {
+							found = true
+						}
+					}
+				}
+			}
+		}
+		if !found {
+			return false, "DeepCopy's callback no longer takes the family of a HUSB/WIFE/CHIL node from the node itself: copying such a node that has no FAM node above it (a CHIL line nested under an INDI record, or a bare child copied by MergeNodes) reaches needsFamily with a nil family"
+		}
+		var famOK func(fn *ssa.Function, arg ssa.Value, depth int) bool
+		famOK = func(fn *ssa.Function, arg ssa.Value, depth int) bool {
+			prm, isPrm := arg.(*ssa.Parameter)
+			if !isPrm || depth > 3 {
+				return false
+			}
+			if fn.Signature.Recv() != nil && len(fn.Params) > 0 && fn.Params[0] == prm {
+				return true // the receiver family (a method was called on it)
+			}
+			for _, c2 := range su.Calls(fn) {
+				if cal := c2.Common().StaticCallee(); cal != nil && cal.Name() == "needsFamily" && len(c2.Common().Args) > 0 && c2.Common().Args[0] == arg {
+					return true // checked by needsFamily in this function (the constructor calls follow the check)
+				}
+			}
+			// forwarded parameter: every caller must pass a good family
+			idx := -1
+			for i, q := range fn.Params {
+				if q == prm {
+					idx = i
+				}
+			}
+			n := 0
+			for _, caller := range p.Repo {
+				for _, c := range su.CallsTo(caller, fn) {
+					n++
+					if idx >= len(c.Call.Args) || !famOK(caller, c.Call.Args[idx], depth+1) {
+						return false
+					}
+				}
+			}
+			return n > 0
+		}
+		for _, ctor := range []string{"newHusbandNode", "newWifeNode", "newChildNode"} {
+			f := p.Func(load.PkgRoot, ctor)
+			if f == nil {
+				return false, ctor + " not found"
+			}
+			for _, fn := range p.Repo {
+				for _, c := range su.CallsTo(fn, f) {
+					if !famOK(fn, c.Call.Args[0], 0) {
+						return false, "the family given to " + ctor + " in " + load.FuncName(fn) + " is neither checked by needsFamily nor a receiver: a family-role node without a family can exist"
+					}
+				}
+			}
+		}
+		return true, ""
+	},
+}
+
 type e1ctx struct {
 	p      *load.Prog
 	g      *cg.Graph
@@ -957,6 +1043,14 @@ func runE1(p *load.Prog, r *oblig.Run, rulePrefix string, entries []*ssa.Functio
 		}
 		if why, ok := c.table[key]; ok {
 			c.used[key] = true
+			// machine-checked side condition of the reviewed reason, where one is coded
+			if cond, has := tableSideConditions[key]; has {
+				if okc, whyNot := cond(p); !okc {
+					o.Fail("may panic: " + s.Detail + "; the reviewed table entry no longer applies: " + whyNot)
+					continue
+				}
+				why += " [side condition checked]"
+			}
 			o.OK("table: " + why)
 			continue
 		}
